@@ -341,3 +341,18 @@ Theorem C10_mixing_orthogonal_branches :
      inner_2d G2 (nth k (space_shifts sources (mixing_matrix (gen_ortho_basis_2d j d G2) betas)) []) d = 0).
 Proof. exact gen_branches_mixing_space_shifts. Qed.
 Print Assumptions C10_mixing_orthogonal_branches.
+
+(** Orthonormality for EVERY direction that is not the zero vector: scalar and diagonal branches with no further
+    hypothesis (the guards make the metric positive), full branch for a positive definite metric (which the code does
+    not check: [pos_def_2d] stays a hypothesis; non-vacuous: [ex_pos_def]). *)
+Theorem C10_orthonormal_nonzero_direction :
+  forall (j : nat) (d : list R) (g : R) (G1 : list R) (G2 : matrix) (c c' : nat),
+  (exists i, nth i d 0 <> 0) -> (S c < length d)%nat -> (S c' < length d)%nat ->
+  (gen_ortho_pre_0d j d g ->
+     dot (col c (gen_ortho_basis_0d j d g)) (col c' (gen_ortho_basis_0d j d g)) = if Nat.eqb c c' then 1 else 0) /\
+  (gen_ortho_pre_1d j d G1 ->
+     dot (col c (gen_ortho_basis_1d j d G1)) (col c' (gen_ortho_basis_1d j d G1)) = if Nat.eqb c c' then 1 else 0) /\
+  (gen_ortho_pre_2d j d G2 -> pos_def_2d G2 (length d) ->
+     dot (col c (gen_ortho_basis_2d j d G2)) (col c' (gen_ortho_basis_2d j d G2)) = if Nat.eqb c c' then 1 else 0).
+Proof. exact gen_branches_orthonormal_nonzero. Qed.
+Print Assumptions C10_orthonormal_nonzero_direction.
